@@ -1,7 +1,9 @@
 /*
  * C05 library-API driver: walks an image through the public reader API of libsquashfs the way a careful client
  * would (every return value checked), but keeps *using* every object after a call on it failed — the API does not
- * forbid that.  Exit 0 = all calls returned (success or error).  Memory errors are reported by ASan/UBSan,
+ * forbid that.  Exit 0 = all calls returned (success or error); the last line of stdout is always
+ * `calls=<n> errors=<n> entries=<n> stopped=<where>` (the check refuses a run without it or with calls=0: a silent
+ * no-op is not a pass); exit 3 = the image file itself could not be opened.  Memory errors are reported by ASan/UBSan,
  * hangs by the caller's timeout.  Own loop protection: a directory is entered once per inode reference and the
  * number of visited entries is capped, so that a timeout is never this driver's own doing.
  *
@@ -38,7 +40,7 @@ static sqfs_id_table_t *idtbl;
 static sqfs_dir_reader_t *dr, *dr_dot;
 static sqfs_data_reader_t *data;
 static sqfs_xattr_reader_t *xr;
-static unsigned long calls, errors, entries;
+static unsigned long calls, errors, entries, strbytes;
 static unsigned int rng_state = 12345;
 static sqfs_u64 seen[4096];
 static size_t nseen;
@@ -102,8 +104,16 @@ static void exercise_xattr(const sqfs_inode_generic_t *ino)
 
 	if (xr == NULL || sqfs_inode_get_xattr_index(ino, &idx) != 0)
 		return;
-	if (chk(sqfs_xattr_reader_read_all(xr, idx, &list)) == 0)
+	if (chk(sqfs_xattr_reader_read_all(xr, idx, &list)) == 0) {
+		sqfs_xattr_t *it;
+		/* a client prints keys as strings and copies value_len bytes */
+		for (it = list; it != NULL; it = it->next) {
+			strbytes += strlen(it->key);
+			if (it->value_len) { volatile sqfs_u8 x = it->value[0] ^ it->value[it->value_len - 1]; (void)x; }
+			strbytes += it->value[it->value_len];       /* the terminator the API promises */
+		}
 		sqfs_xattr_list_free(list);
+	}
 	if (idx == 0xFFFFFFFF)
 		return;
 	if (chk(sqfs_xattr_reader_get_desc(xr, idx, &desc)) != 0)
@@ -118,8 +128,12 @@ static void exercise_xattr(const sqfs_inode_generic_t *ino)
 			chk(sqfs_xattr_reader_read_key(xr, &key));
 			break;
 		}
-		if (chk(sqfs_xattr_reader_read_value(xr, key, &val)) == 0)
+		strbytes += strlen((const char *)key->key);       /* rdsquashfs hands it to lsetxattr() as a C string */
+		if (chk(sqfs_xattr_reader_read_value(xr, key, &val)) == 0) {
+			if (val->size) { volatile sqfs_u8 x = val->value[0] ^ val->value[val->size - 1]; (void)x; }
+			strbytes += val->value[val->size];              /* allocated with one spare zero byte */
 			free(val);
+		}
 		free(key);
 	}
 }
@@ -162,8 +176,12 @@ static void walk(sqfs_dir_reader_t *rd, const sqfs_inode_generic_t *dir, const c
 			/* keep reading entries with the same readers */
 			continue;
 		}
-		if (chk(sqfs_dir_entry_from_inode((const char *)ent->name, ent->size + 1, ino, idtbl, &de)) == 0)
+		if (chk(sqfs_dir_entry_from_inode((const char *)ent->name, ent->size + 1, ino, idtbl, &de)) == 0) {
+			strbytes += strlen(de->name);
 			free(de);
+		}
+		if (ino->base.type == SQFS_INODE_SLINK || ino->base.type == SQFS_INODE_EXT_SLINK)
+			strbytes += strnlen((const char *)ino->extra, ino->data.slink.target_size);
 		plen = strlen(prefix) + 1 + strlen((const char *)ent->name) + 1;
 		path = malloc(plen);
 		snprintf(path, plen, "%s/%s", prefix, (const char *)ent->name);
@@ -190,15 +208,19 @@ int main(int argc, char **argv)
 {
 	sqfs_compressor_config_t cfg;
 	sqfs_inode_generic_t *root = NULL;
+	const char *stopped = "end";
 	size_t i;
 	int r;
 
 	if (argc < 2) return 2;
 	if (argc > 2) rng_state = (unsigned)atoi(argv[2]) * 2654435761u + 1;
-	if (sqfs_file_open(&file, argv[1], SQFS_FILE_OPEN_READ_ONLY)) { puts("open failed"); return 0; }
-	if ((r = sqfs_super_read(&super, file)) != 0) { printf("super: %d\n", r); goto out; }
+	if (chk(sqfs_file_open(&file, argv[1], SQFS_FILE_OPEN_READ_ONLY))) {
+		printf("calls=%lu errors=%lu entries=0 stopped=open\n", calls, errors);
+		return 3;
+	}
+	if ((r = chk(sqfs_super_read(&super, file))) != 0) { stopped = "super"; goto out; }
 	sqfs_compressor_config_init(&cfg, super.compression_id, super.block_size, SQFS_COMP_FLAG_UNCOMPRESS);
-	if ((r = sqfs_compressor_create(&cfg, &cmp)) != 0) { printf("compressor: %d\n", r); goto out; }
+	if ((r = chk(sqfs_compressor_create(&cfg, &cmp))) != 0) { stopped = "compressor"; goto out; }
 	idtbl = sqfs_id_table_create(0);
 	chk(sqfs_id_table_read(idtbl, file, &super, cmp));
 	xr = sqfs_xattr_reader_create(0);
@@ -207,7 +229,7 @@ int main(int argc, char **argv)
 	chk(sqfs_data_reader_load_fragment_table(data, &super));
 	dr = sqfs_dir_reader_create(&super, cmp, file, 0);
 	dr_dot = sqfs_dir_reader_create(&super, cmp, file, SQFS_DIR_READER_DOT_ENTRIES);
-	if (!data || !dr || !dr_dot) { puts("alloc"); goto out; }
+	if (!data || !dr || !dr_dot) { stopped = "alloc"; goto out; }
 
 	if (chk(sqfs_dir_reader_get_root_inode(dr, &root)) == 0) {
 		walk(dr, root, "", 0);
@@ -254,8 +276,8 @@ int main(int argc, char **argv)
 			free(ino);
 		}
 	}
-	printf("calls=%lu errors=%lu entries=%lu\n", calls, errors, entries);
 out:
+	printf("calls=%lu errors=%lu entries=%lu strbytes=%lu stopped=%s\n", calls, errors, entries, strbytes, stopped);
 	for (i = 0; i < npaths; ++i) free(paths[i]);
 	sqfs_drop(dr); sqfs_drop(dr_dot); sqfs_drop(data); sqfs_drop(xr); sqfs_drop(idtbl); sqfs_drop(cmp); sqfs_drop(file);
 	return 0;
